@@ -157,6 +157,31 @@ def nanfill(chk, prog):
         return all_of(eq(lo, i0, "slice start"), eq(hi, i1 + 1, "slice stop"), eq(pi, i0 - 1, "left neighbour"), eq(qi, i1 + 1, "right neighbour"),
                       eq(n - 2, hi - lo, "number of interior weights vs rows written"))
     chk.ob("NANFILL.index", f.ref, "slice [i0, i1], neighbours i0-1 / i1+1, len(weights) == rows written", law, construct="gap indices", **kw)
+    # the gaps are filled by slerp() as the property describes it: with slerp's own options.  An option passed on must evaluate to slerp's default
+    # (a constant equal to it, or a parameter of slerp_nan whose default equals it)
+    sl = prog.func(QUAT + "::slerp")
+    sl_params = sl.params
+    sl_defaults = dict(zip(sl_params[len(sl_params) - len(sl.node.args.defaults):], sl.node.args.defaults))
+    own_defaults = dict(zip(f.params[len(f.params) - len(f.node.args.defaults):], f.node.args.defaults))
+    passed = {k.arg: k.value for k in call.keywords if k.arg}
+    for p_, a_ in zip(sl_params, call.args):
+        passed[p_] = a_
+    for opt, dflt in sl_defaults.items():
+        if opt not in passed:
+            chk.record("NANFILL.options", "%s::%s" % (f.ref, opt), "slerp's own default %s=%s is used" % (opt, ast.unparse(dflt)))
+            continue
+        v = passed[opt]
+        eff = own_defaults.get(v.id) if isinstance(v, ast.Name) and v.id in own_defaults else (v if isinstance(v, ast.Constant) else None)
+        site = "%s::%s" % (f.ref, opt)
+        if eff is None:
+            chk.error("NANFILL.options: slerp_nan passes %s=%s to slerp; its value could not be resolved to a constant (cannot decide)" % (opt, ast.unparse(v)))
+        elif isinstance(eff, ast.Constant) and isinstance(dflt, ast.Constant) and eff.value == dflt.value:
+            chk.record("NANFILL.options", site, "option %s forwarded with slerp's own default %s" % (opt, ast.unparse(dflt)))
+        else:
+            why = ("slerp_nan calls slerp with %s=%s where slerp itself uses %s: the gaps are not filled with the interpolants slerp() gives for the same neighbours "
+                   "(with a threshold of 1 neighbours holding the same attitude take the spherical arm with sin(theta) = 0, i.e. 0/0)" % (opt, ast.unparse(eff), ast.unparse(dflt)))
+            chk.record("NANFILL.options", site, "slerp's options are used as slerp defines them", verdict="VIOLATION", detail=why)
+            chk.finding("NANFILL.options", QUAT, f.qname, "slerp(..., %s=%s) in slerp_nan" % (opt, ast.unparse(eff)), why, line=call.lineno)
     # same state of the array for the output base and the neighbours
     seen = []
 
@@ -192,6 +217,36 @@ def nanfill(chk, prog):
         chk.error("NANFILL: loop over get_nan_intervals(self.array) not recognised")
     g = prog.func(CORE + "::get_nan_intervals")
     chk.touch(g)
+    # which rows count as gaps: a row with ANY NaN component (it cannot serve as a neighbour: slerp would spread its NaN over the adjacent gap)
+    reds = []
+
+    def has_isnan(e, derived):
+        return any((isinstance(x, ast.Call) and ast.unparse(x.func).split(".")[-1] == "isnan") or (isinstance(x, ast.Name) and x.id in derived) for x in ast.walk(e))
+    derived = set()
+    for _ in range(3):           # locals holding the element-wise mask
+        for s_ in ast.walk(g.node):
+            if isinstance(s_, ast.Assign) and len(s_.targets) == 1 and isinstance(s_.targets[0], ast.Name) and has_isnan(s_.value, derived):
+                derived.add(s_.targets[0].id)
+    for n_ in ast.walk(g.node):
+        if isinstance(n_, ast.Call):
+            nm = ast.unparse(n_.func).split(".")[-1]
+            row_wise = any(k.arg == "axis" for k in n_.keywords) or (len(n_.args) >= 2 and ast.unparse(n_.func).startswith(("np.", "numpy.")))
+            if nm in ("any", "all", "sum", "count_nonzero", "prod", "min", "max") and row_wise:
+                operands = list(n_.args[:1]) if ast.unparse(n_.func).startswith(("np.", "numpy.")) else ([n_.func.value] if isinstance(n_.func, ast.Attribute) else [])
+                if any(has_isnan(a_, derived) for a_ in operands):
+                    reds.append((nm, n_))
+    if not reds:
+        chk.error("NANFILL.mask: no reduction of np.isnan(data) over the components of a row found in get_nan_intervals (cannot decide which rows count as gaps)")
+    for nm, n_ in reds:
+        site = g.ref + "::" + ast.unparse(n_)[:50]
+        if nm == "any":
+            chk.record("NANFILL.mask", site, "a row counts as a gap when any of its components is NaN")
+        elif nm == "all":
+            why = "a row is flagged only when ALL its components are NaN: a partially-NaN row is left in place and used as a neighbour, and slerp spreads its NaN over the adjacent gap"
+            chk.record("NANFILL.mask", site, "a row counts as a gap when any of its components is NaN", verdict="VIOLATION", detail=why)
+            chk.finding("NANFILL.mask", CORE, "get_nan_intervals", "row mask %s" % ast.unparse(n_)[:50], why, line=n_.lineno)
+        else:
+            chk.error("NANFILL.mask: rows are flagged through %s(isnan(...)) (cannot decide)" % nm)
     # value-number form of the split:  np.split(I, 1 + np.where(np.diff(I) > 1)[0])  with  I = np.where(<nan mask>)[0]
     import re
 
